@@ -38,7 +38,7 @@ int rc_decode_strict(const uint8_t *s, size_t n, rc_pkt_t *pk, int maxpk, char *
 
 /* receiver-side reference decoder (C02): what a conforming receiver must extract from an arbitrary stream.
  * Packets are the maximal delimiter-free runs (non-empty after unescaping); returns number of packets. */
-int rc_decode_rx(const uint8_t *s, size_t n, rc_pkt_t *pk, int maxpk);
+int rc_decode_rx(const uint8_t *s, size_t n, rc_pkt_t *pk, int maxpk, int synced);  /* synced: the receiver has already seen a delimiter */
 
 /* parse payload into messages; returns 1 when well-formed */
 int rc_split(rc_pkt_t *p);
